@@ -121,16 +121,16 @@ example : (List.replicate buf32Alloc (0 : Int)).length = buf32Alloc := List.leng
 /-- whatever `libxmp_mixer_get_ticksize` computes (valid quotient, refusal −1), the tick size
 used for the frame is positive and at most `XMP_MAX_FRAMESIZE / 2`; a valid quotient inside that
 range is used unchanged (up to the anticlick minimum), so the rate really selects the frame length. -/
-theorem C13_ticksize_guard (calc : Option Int) :
-    0 < prepareTicksize (ticksizeOf calc) ∧ prepareTicksize (ticksizeOf calc) ≤ maxFramesize / 2 ∧
-    (∀ c, calc = some c → 2 ^ anticlickShift ≤ c → c ≤ (maxFramesize / 2 : Nat) →
-      (prepareTicksize (ticksizeOf calc) : Int) = c) := by
+theorem C13_ticksize_guard (q : Option Int) :
+    0 < prepareTicksize (ticksizeOf q) ∧ prepareTicksize (ticksizeOf q) ≤ maxFramesize / 2 ∧
+    (∀ c, q = some c → 2 ^ anticlickShift ≤ c → c ≤ (maxFramesize / 2 : Nat) →
+      (prepareTicksize (ticksizeOf q) : Int) = c) := by
   have hm : maxFramesize = 24585 := rfl
   have ha : anticlickShift = 3 := rfl
   refine ⟨?_, prepareTicksize_le _, ?_⟩
   · unfold prepareTicksize ticksizeOf
     rw [hm, ha]
-    cases calc with
+    cases q with
     | none => simp
     | some c =>
       simp only
